@@ -43,7 +43,8 @@ def members_for(tree, dsl, tier, U):  # noqa: C901
                 flat = e1.ref_flatten(tree, cfg)
                 spec = optree.tree_structure(tree, **kw)
                 key = flat.desc.eq_key()
-                fam.append((f'flatten[{tag}]', spec, key, cfg['nil']))
+                # 5th element: the namespace the REFERENCE says this treespec records (others: taken from the treespec)
+                fam.append((f'flatten[{tag}]', spec, key, cfg['nil'], flat.namespace))
                 if cfg['pred'] != 'none':
                     continue
                 # construction routes of the same structure
@@ -101,14 +102,17 @@ def ns_compatible(a, b):
 
 def compare_family(ctx, fam, case_base, keyf):  # noqa: C901
     m = len(fam)
-    hashes = [hash(s) for _, s, _, _ in fam]
-    nss = [s.namespace for _, s, _, _ in fam]
+    hashes = [hash(f[1]) for f in fam]
+    nss = [f[4] if len(f) > 4 else f[1].namespace for f in fam]
     for i in range(m):
-        li, si, ki, ni = fam[i]
+        li, si, ki, ni = fam[i][:4]
+        if len(fam[i]) > 4 and si.namespace != fam[i][4]:
+            ctx.violation('recorded-namespace', keyf('recorded-namespace'), dict(case_base, a=li),
+                          f'{si!r} records namespace {si.namespace!r}, reference {fam[i][4]!r}')
         if not (si == si) or si != si:
             ctx.violation('reflexive', keyf('reflexive'), dict(case_base, a=li), repr(si))
         for j in range(i + 1, m):
-            lj, sj, kj, nj = fam[j]
+            lj, sj, kj, nj = fam[j][:4]
             ctx.count()
             want = ni == nj and ns_compatible(nss[i], nss[j]) and ki == kj
             eq_ij = si == sj
@@ -139,7 +143,7 @@ def check_tree(ctx, dsl, index):
     tree, _ = gen.build(dsl, U)
     fam = members_for(tree, dsl, ctx.tier, U)
     case = {'tree': dsl}
-    for _, s, k, nil in fam[:: max(1, len(fam) // 12)]:
+    for _, s, k, nil, *_ in fam[:: max(1, len(fam) // 12)]:
         if k != '*':
             ctx.cls((e1._tk(k), nil, s.namespace))
     ctx.outcome(f'family={len(fam) // 10 * 10}')
